@@ -14,6 +14,93 @@ import (
 
 func init() {
 	Register("C16", c16)
+	RegisterFixture("C16", c16Fixtures)
+	RegisterFixture("C03", interpFixtures("C03"))
+	RegisterFixture("C09", interpFixtures("C09"))
+}
+
+const c16FxSrc = `package fx
+type S struct{ A, B *int; N int }
+func good(s *S) int {
+	if s.A != nil && *s.A > 0 { return 1 }
+	if s.B == nil { return 0 }
+	return *s.B
+}
+func bad(s *S) int {
+	if s.B != nil { return *s.A }
+	return 0
+}
+func conj(s *S) bool { return s.N > 0 && s.A != nil }
+`
+
+// shape enumeration on a tiny validator: the bad variant dereferences A under a test of B.
+func c16Fixtures(c *eng.Ctx) {
+	p, _, err := eng.BuildFixture(c16FxSrc)
+	if err != nil {
+		c.Fixture("C16.shapes/build", "ok", err.Error())
+		return
+	}
+	for name, want := range map[string]string{"good": "", "bad": "{B}"} {
+		fn := p.Func(name)
+		var bad []string
+		for mask := 0; mask < 4; mask++ {
+			in := &eng.Interp{MaxPaths: 64}
+			in.PinPath = func(path string) (eng.AV, bool) {
+				for i, f := range []string{"s.A", "s.B"} {
+					if path == f {
+						if mask&(1<<i) != 0 {
+							return eng.AV{K: eng.NonNilV}, true
+						}
+						return eng.AV{K: eng.NilV}, true
+					}
+				}
+				return eng.AV{}, false
+			}
+			paths, _ := in.Run(fn, nil)
+			for _, pr := range paths {
+				if len(pr.NilDerefs) > 0 {
+					bad = append(bad, c16ShapeName([]string{"A", "B"}, mask))
+					break
+				}
+			}
+		}
+		c.Fixture("C16.shapes/"+name, want, strings.Join(bad, " "))
+	}
+}
+
+// interpFixtures self-tests forcing (a pinned member forces the result) for the properties
+// that use the interpreter without a template of their own.
+func interpFixtures(prop string) func(c *eng.Ctx) {
+	return func(c *eng.Ctx) {
+		p, _, err := eng.BuildFixture(c16FxSrc)
+		if err != nil {
+			c.Fixture(prop+".forcing/build", "ok", err.Error())
+			return
+		}
+		run := func(pin eng.AV) string {
+			in := &eng.Interp{MaxPaths: 64, PinPath: func(path string) (eng.AV, bool) {
+				if path == "s.A" {
+					return pin, true
+				}
+				return eng.AV{}, false
+			}}
+			paths, _ := in.Run(p.Func("conj"), nil)
+			res := map[string]bool{}
+			for _, pr := range paths {
+				if len(pr.Ret) == 1 {
+					res[pr.Ret[0].String()] = true
+				}
+			}
+			var ks []string
+			for k := range res {
+				ks = append(ks, k)
+			}
+			sort.Strings(ks)
+			return strings.Join(ks, ",")
+		}
+		c.Fixture(prop+".forcing/A=nil forces false", "false", run(eng.AV{K: eng.NilV}))
+		c.Fixture(prop+".forcing/A!=nil leaves both", "false,true", run(eng.AV{K: eng.NonNilV}))
+	}
 }
 
 const (
